@@ -68,6 +68,9 @@ def setup():
 
         @property
         def infinite(self):
+            if self._client is None and self._params.get("parent-infinite"):
+                # like BulkIndexParamSource: the unpartitioned source keeps the inherited answer, only a partition knows that it is finite
+                return True
             return self._limit is None
 
         @property
